@@ -9,7 +9,7 @@ use serde_json::{json, Value};
 
 pub const LEVEL: &str = "exploration";
 pub const EXHAUSTIVE: bool = false;
-pub const RULE: &str = "paired contexts differing only in the smart-quote option receive identical keys and are compared after EVERY key. Enumerated: every combination of <= W leading and <= W trailing characters from the 9-character set ' \" ( ) . ! - : ` (quick W=2: 91x91 wrapper pairs x 2 words; thorough W=3: 820x820 pairs x 1 word rotating through the word list) around words (dictionary-guided, emoji names, emoticons, words with a learned selection; Probhat key sequences in fixed mode); plus generated arbitrary strings; layout x English x ANSI x suggestions free, identical pre-populated selection store, no commits. Oracle: same variant, length and preselected index; uncurl(on[i]) == off[i] for every i; forward for lists: off[i] of the form P.core.T (P, T = the converted wrapper of the reference split of the composition) => on[i] == curl_open(P).core.curl_close(T), any other candidate unchanged, a candidate equal to the raw typed text is not judged forward; empty word part => lists identical. Non-trivial: a quote adjacent to a non-empty word part and a list with >= 2 candidates; distinct by (options, typed text).";
+pub const RULE: &str = "paired contexts differing only in the smart-quote option receive identical keys and are compared after EVERY key. Enumerated: every combination of <= W leading and <= W trailing characters from the 9-character set ' \" ( ) . ! - : ` (quick W=2: 91x91 wrapper pairs x 2 words; thorough W=3: 820x820 pairs x 1 word rotating through the word list) around words (dictionary-guided, emoji names, emoticons, words with a learned selection; Probhat key sequences in fixed mode); plus generated arbitrary strings; layout x English x ANSI x suggestions free, identical pre-populated selection store, no commits. Oracle: same variant, length and preselected index; uncurl(on[i]) == off[i] for every i; forward for lists: off[i] of the form P.core.T (P, T = the converted wrapper of the reference split of the composition) => on[i] == curl_open(P).core.curl_close(T), any other candidate unchanged, a candidate equal to the raw typed text is not judged forward; empty word part => lists identical. Non-trivial: a quote adjacent to a non-empty word part and a list with >= 2 candidates; distinct by (options, typed text). Plus: ONE context per shard switched off -> on -> off by update-engine (idle) for every text; the renderings with the option on and off must stand in the same relation as those of separately created contexts.";
 pub const ASSUMPTIONS: &[&str] = &[
     "reference split transcribed from the documentation (self-tested at start-up)",
     "single-string suggestions (suggestions off) are only required to satisfy the un-curl relation",
